@@ -1779,7 +1779,7 @@ class Signature:
                 assert isinstance(param.annotation, TypeVarValue)
                 tv = param.annotation.typevar
                 if tv in typevars:
-                    new_val = typevars[tv].substitute_typevars(typevars)
+                    new_val = typevars[tv]
                     if isinstance(new_val, TypeVarValue):
                         assert new_val.is_paramspec, new_val
                         new_param = SigParameter(
